@@ -57,6 +57,16 @@ func WriteStrings(w io.Writer, vals []string) {
 	}
 }
 
+// WriteStringsFunc writes the number of entries in keys followed by the result of valueOf for
+// each entry written by WriteString.
+func WriteStringsFunc(w io.Writer, keys []string, valueOf func(key string) string) {
+	writeLength(w, len(keys))
+
+	for _, key := range keys {
+		WriteString(w, valueOf(key))
+	}
+}
+
 // WriteStringMap writes the number of entries in vals followed by each key and value written
 // by WriteString in the order of the keys.
 func WriteStringMap(w io.Writer, vals map[string]string) {
